@@ -158,9 +158,23 @@ def impl(line):
     with warnings.catch_warnings():
         warnings.simplefilter("ignore")
         e = xbuild.encoding(t[1])
+        before = sx(xser.encoding(e))
         pkt = xbuild.packet(t[4], data=unhx(t[2]), pos=int(t[3]))
-        p = e.parse_value(pkt)
-    return f"ok {xser.CLS[type(p).__name__]} {V(p)} {V(p.raw_value)} {pkt.raw_data.pos}"
+        try:
+            p = e.parse_value(pkt)
+        finally:
+            altered = sx(xser.encoding(e)) != before
+        out = f"ok {xser.CLS[type(p).__name__]} {V(p)} {V(p.raw_value)} {pkt.raw_data.pos}"
+        # decoding is a function of the bits and the values decoded so far: the encoding object is left as it was, and
+        # the same packet decodes to the same field a second time
+        pkt2 = xbuild.packet(t[4], data=unhx(t[2]), pos=int(t[3]))
+        p2 = e.parse_value(pkt2)
+        out2 = f"ok {xser.CLS[type(p2).__name__]} {V(p2)} {V(p2.raw_value)} {pkt2.raw_data.pos}"
+    if altered or sx(xser.encoding(e)) != before:
+        return out + " encoding-altered-by-decoding"
+    if out2 != out:
+        return out + " second-decode-differs"
+    return out
 
 
 # --- independent reference ------------------------------------------------------------------------------
